@@ -86,6 +86,8 @@ def main():
         res = run_one(os.path.join(seeded, d, "patch.diff"), False, meta["properties"], a.tier, a.skip_tests)
         res["id"] = d
         res["owner_properties"] = meta["properties"]
+        if meta.get("detected") is False:
+            res["documented_undetected"] = meta.get("caught_by", "")
         out.append(res)
         print(d, res.get("tests_pass"), {p: c["exit"] for p, c in res["checks"].items()}, flush=True)
     mdir = os.path.join(VERIF, "mutants")
@@ -99,7 +101,8 @@ def main():
             print(m["patch"], res.get("tests_pass"), {p: c["exit"] for p, c in res["checks"].items()}, flush=True)
     with open(os.path.join(VERIF, "mutants", "kill_matrix.json"), "w") as f:
         json.dump(out, f, indent=1)
-    missed = [(r["id"], p) for r in out for p, c in r["checks"].items() if c["exit"] != 1]
+    missed = [(r["id"], p) for r in out for p, c in r["checks"].items() if c["exit"] != 1 and not r.get("documented_undetected")]
+    print("documented as undetected:", [r["id"] for r in out if r.get("documented_undetected")])
     print("missed:", missed)
     return 1 if missed else 0
 
